@@ -201,6 +201,8 @@ func (em *reEmitter) emit(re *syntax.Regexp) (string, error) {
 	return "", fmt.Errorf("unsupported regexp node %s (anchors and word boundaries are only accepted as \\A at the start and \\z at the end)", re.Op)
 }
 
+func strconvUnquote(s string) (string, error) { return strconv.Unquote(s) }
+
 func foldr(op string, parts []string, unit string) string {
 	if len(parts) == 0 {
 		return unit
